@@ -807,4 +807,317 @@ Section GenFile.
       rewrite (Hpos _ _ _ P). unfold objfG. rewrite N.eqb_refl.
       split; [exact P|]. split; [exact xobjG_no_objstm|exact I].
   Qed.
+
+  (* ---------- the result of the three passes ---------- *)
+  Definition M0 : objmap := fold_left (ins objfG) XG [].
+  Definition OSTM : list (N * objmap) := flat_map (ostm_of memfG) XG.
+  Definition M1 : objmap := merge_object_streams XG M0 OSTM.
+  Definition PG : posmap := fold_left (pstep posfG) XG [].
+  Definition ZS : list oid := flat_map (zero_of objfG memfG) XG.
+  Definition OBJS : objmap := zero_pass FG M1 PG ZS.
+
+  Lemma M0_lookup id : lookup M0 id = if hit EG XG id then Some (objfG (fst id) (snd id)) else None.
+  Proof. unfold M0. rewrite (lookup_fold_ins objfG EG XG [] id entries_funG). reflexivity. Qed.
+
+  Lemma PG_lookup id : pos_get PG id = if hit EG XG id then posfG (fst id) (snd id) else None.
+  Proof. unfold PG. rewrite (pos_get_fold posfG EG XG [] id entries_funG). reflexivity. Qed.
+
+  Lemma hit_true n g : hit EG XG (n, g) = true -> exists off, entryG n = SInUse off g /\ In (n, XNormal off g) XG.
+  Proof.
+    unfold hit. cbn [fst snd]. intro H. apply andb_true_iff in H as [H1 H2].
+    apply key_some_In in H1 as [v Hv]. pose proof (entries_funG _ _ Hv) as Ev. rewrite Ev in H2.
+    destruct v as [| |off g'|c i]; try discriminate H2. apply N.eqb_eq in H2. subst g'.
+    exists off. split; [|exact Hv]. unfold EG in Ev. destruct (entryG n); cbn [entry_meaning] in Ev; inversion Ev; reflexivity.
+  Qed.
+
+  Lemma hit_entry n off g : In (n, XNormal off g) XG -> hit EG XG (n, g) = true.
+  Proof.
+    intro H. unfold hit. cbn [fst snd]. rewrite (xget_some_key _ _ _ H). rewrite (entries_funG _ _ H). cbn [andb]. apply N.eqb_refl.
+  Qed.
+
+  Lemma xget_entry n off g : In (n, XNormal off g) XG -> xget XG n = Some (XNormal off g).
+  Proof. intro H. unfold XG. rewrite (xgetG n (entry_keyG _ _ H)). exact (entries_funG _ _ H). Qed.
+
+  Lemma OSTM_in k mems : In (k, mems) OSTM <-> exists off g, In (k, XNormal off g) XG /\ memfG k = Some mems.
+  Proof.
+    unfold OSTM. rewrite in_flat_map. split.
+    - intros [[k0 e] [H1 H2]]. unfold ostm_of in H2. cbn [fst snd] in H2. destruct e as [| |off g|c i]; try contradiction.
+      destruct (memfG k0) as [m|] eqn:Em; [|contradiction]. destruct H2 as [H2|[]]. inversion H2; subst. exists off, g. split; assumption.
+    - intros [off [g [H1 H2]]]. exists (k, XNormal off g). split; [exact H1|]. unfold ostm_of. cbn [fst snd]. rewrite H2. left. reflexivity.
+  Qed.
+
+  Lemma memfG_some k mems : memfG k = Some mems ->
+    exists s, In s (s_ostms st) /\ os_id s = k /\ mems = members_val (a_objs a) s (itemsof s).
+  Proof.
+    unfold memfG. destruct (find_cont k) as [s|] eqn:E; [|discriminate]. intro H. inversion H; subst.
+    apply find_cont_some in E as [H1 H2]. exists s. auto.
+  Qed.
+
+  Lemma members_nodup s : In s (s_ostms st) -> NoDup (os_members s).
+  Proof. intro Hs. apply (NoDup_flat_in os_members (s_ostms st) s Hcnd Hs). Qed.
+
+  Lemma OSTM_named k mems io : In (k, mems) OSTM -> In io mems -> is_named XG k (fst io) = true.
+  Proof.
+    intros H Hio. apply OSTM_in in H as [off [g [_ Hm]]]. apply memfG_some in Hm as [s [Hs [Ek ->]]].
+    destruct io as [id o]. unfold members_val in Hio. apply fold_items_In in Hio as [[]|[it [Hit ->]]].
+    assert (Hn : In (oi_num it) (os_members s)).
+    { rewrite <- (os_build_nums _ _ _ _ _ (cont_build s Hs)). apply in_map. exact Hit. }
+    destruct (xget_member s _ Hs Hn) as [i Hx]. unfold is_named. cbn [fst]. rewrite Hx, Ek. apply N.eqb_refl.
+  Qed.
+
+  Lemma M1_lookup i : lookup M1 i = match lookup M0 i with Some v => Some v | None => find_member OSTM i end.
+  Proof. unfold M1. apply merge_all_named. exact OSTM_named. Qed.
+
+  Lemma member_unique s s' n : In s (s_ostms st) -> In s' (s_ostms st) -> In n (os_members s) -> In n (os_members s') -> s = s'.
+  Proof. intros. apply (flat_map_unique os_members (s_ostms st) s s' n Hcnd); assumption. Qed.
+
+  Lemma cont_entry s : In s (s_ostms st) -> exists off, In (os_id s, XNormal off 0) XG.
+  Proof.
+    intro Hs. destruct (Forall2_In_l _ _ _ s conts_spec Hs) as [tp [Htp [o [_ E]]]].
+    assert (Hin : In tp gotops) by (apply otopG_in; unfold gtops; apply in_or_app; right; exact Htp).
+    destruct (xget_topG tp Hin) as [off [Hx _]]. exists off. subst tp. unfold top_num in Hx. cbn [fst snd] in Hx. apply xget_In. exact Hx.
+  Qed.
+
+  Lemma mvals_lookup s id : In s (s_ostms st) ->
+    lookup (members_val (a_objs a) s (itemsof s)) id =
+    if (snd id =? 0) && mem_N (fst id) (os_members s) then Some (member_val (a_objs a) s (fst id)) else None.
+  Proof. intro Hs. apply members_val_lookup; [apply cont_build; exact Hs|apply members_nodup; exact Hs]. Qed.
+
+  Lemma find_member_of s n : In s (s_ostms st) -> In n (os_members s) ->
+    find_member OSTM (n, 0) = Some (member_val (a_objs a) s n).
+  Proof.
+    intros Hs Hn. apply find_member_some.
+    - intros k mems H. apply OSTM_in in H as [off [g [_ Hm]]]. apply memfG_some in Hm as [s' [Hs' [_ ->]]].
+      rewrite (mvals_lookup s' (n, 0) Hs'). cbn [fst snd]. rewrite N.eqb_refl. cbn [andb].
+      destruct (mem_N n (os_members s')) eqn:E; [left|right; reflexivity].
+      apply mem_N_In in E. rewrite (member_unique s' s n Hs' Hs E Hn). reflexivity.
+    - destruct (cont_entry s Hs) as [off He]. exists (os_id s), (members_val (a_objs a) s (itemsof s)). split.
+      + apply OSTM_in. exists off, 0. split; [exact He|]. unfold memfG. rewrite (find_cont_in s Hs). reflexivity.
+      + rewrite (mvals_lookup s (n, 0) Hs). cbn [fst snd]. rewrite N.eqb_refl. cbn [andb].
+        replace (mem_N n (os_members s)) with true by (symmetry; apply mem_N_In; exact Hn). reflexivity.
+  Qed.
+
+  Lemma find_member_is i v : find_member OSTM i = Some v ->
+    exists s, In s (s_ostms st) /\ snd i = 0 /\ In (fst i) (os_members s) /\ v = member_val (a_objs a) s (fst i).
+  Proof.
+    intro H. apply find_member_inv in H as [k [mems [Hk Hl]]]. apply OSTM_in in Hk as [off [g [_ Hm]]].
+    apply memfG_some in Hm as [s [Hs [_ ->]]]. rewrite (mvals_lookup s i Hs) in Hl.
+    destruct ((snd i =? 0) && mem_N (fst i) (os_members s)) eqn:E; [|discriminate Hl].
+    apply andb_true_iff in E as [E1 E2]. apply N.eqb_eq in E1. apply mem_N_In in E2. inversion Hl; subst. exists s. auto.
+  Qed.
+
+  (* a plain top-level object: its entry, what the first pass leaves, and whether its body was read *)
+  Lemma top_entry_cases tp : In tp ptops ->
+    exists off, In (top_num tp, XNormal off (snd (fst (fst tp)))) XG /\
+      objfG (top_num tp) (snd (fst (fst tp))) = first_top tp /\ memfG (top_num tp) = None /\
+      ((posfG (top_num tp) (snd (fst (fst tp))) = None /\ first_top tp = loaded_top tp) \/
+       exists d c li lg start rest, snd (fst tp) = OStream d c /\ dict_get d K_Length = Some (ORef li lg) /\ In li comp /\
+         In ((li, lg), OInt (Z.of_nat (length c))) (a_objs a) /\
+         posfG (top_num tp) (snd (fst (fst tp))) = Some start /\ start <= blen FG /\ from start FG = c ++ rest /\
+         first_top tp = OStream (denote_dict d (dict_sts (i_obj (snd tp)))) []).
+  Proof.
+    intro Hp. assert (Hin : In tp gotops) by (apply otopG_in; unfold gtops; apply in_or_app; left; exact Hp).
+    destruct (xget_topG tp Hin) as [off [Hx [pre [post [Eo Eoff]]]]]. exists off.
+    split; [apply xget_In; exact Hx|].
+    assert (Hnx : (top_num tp =? gxid) = false).
+    { apply N.eqb_neq. intro K. apply gxid_not_top. rewrite <- K. apply in_map. exact Hin. }
+    assert (Hfc : find_cont (top_num tp) = None) by (apply find_cont_none; apply ptop_not_cid; exact Hp).
+    split; [unfold objfG; rewrite Hnx, Hfc, (find_top_in tp Hin); reflexivity|].
+    split; [unfold memfG; rewrite Hfc; reflexivity|].
+    destruct (parse_plain tp pre post Eo Hp) as [pos [P1 [_ [_ P4]]]].
+    destruct (from_top pre tp post Eo) as [Fr _]. rewrite <- Eoff in Fr.
+    assert (Epos : posfG (top_num tp) (snd (fst (fst tp))) = pos) by (unfold posfG; rewrite Hx, Fr, P1; reflexivity).
+    rewrite Epos. destruct P4 as [P4|[d [c [li [lg [start [rest [Q1 [Q2 [Q3 [Q4 [Q5 [Q6 Q7]]]]]]]]]]]]]; [left; exact P4|right].
+    exists d, c, li, lg, start, rest. repeat (split; [assumption|]).
+    unfold first_top, deferred. rewrite Q1, Q2. replace (mem_N li comp) with true by (symmetry; apply mem_N_In; exact Q3). reflexivity.
+  Qed.
+
+  (* only a plain top-level object is ever left without its body *)
+  Lemma pos_some_top n off g start : In (n, XNormal off g) XG -> posfG n g = Some start ->
+    exists tp, In tp ptops /\ top_num tp = n /\ snd (fst (fst tp)) = g.
+  Proof.
+    intros H Hp. pose proof (xget_entry _ _ _ H) as Hx. pose proof (entries_funG _ _ H) as En. unfold EG in En.
+    destruct (entryG n) as [a0 b0|off' g'|c i] eqn:Ee; cbn [entry_meaning] in En; inversion En; subst off' g'.
+    destruct (entryG_inuse _ _ _ Ee) as [[pre [tp [post [Eo [Ek Ep]]]]]|[-> [-> ->]]].
+    - assert (Hin : In tp gotops) by (rewrite Eo; apply in_or_app; right; left; reflexivity).
+      destruct (gtop_kind tp (proj1 (otopG_in tp) Hin)) as [Hpt|[s [Hs Hc]]].
+      + exists tp. split; [exact Hpt|]. unfold top_num. rewrite Ek. split; reflexivity.
+      + exfalso. destruct (parse_cont s tp pre post Eo Hs Hc) as [_ [Q1 _]].
+        destruct (from_top pre tp post Eo) as [Fr _]. rewrite <- Ep in Fr.
+        unfold posfG in Hp. rewrite Hx, Fr, Q1 in Hp. discriminate Hp.
+    - exfalso. destruct (entry_specG _ _ _ H) as [_ K]. unfold memfG in K.
+      rewrite (find_cont_none gxid (proj2 gxid_fresh)) in K. destruct K as [K1 [_ K3]].
+      unfold objfG in K3. rewrite N.eqb_refl in K3.
+      unfold posfG in Hp. rewrite Hx in Hp. rewrite from_gxpos in *. unfold TAILG, indirect_x in *.
+      match type of Hp with context [indirect_with ?b ?s0 ?e ?l] => pose proof (indirect_with_agrees b s0 e l) as A end.
+      rewrite xobjG_parse in A. destruct A as [pos [A1 [->|[d0 [K Kn]]]]].
+      + rewrite A1 in Hp. discriminate Hp.
+      + exact (stream_new_has_length _ _ _ _ K Kn).
+  Qed.
+
+  Lemma member_int li lg z : In li comp -> In ((li, lg), OInt z) (a_objs a) ->
+    lg = 0 /\ exists s, In s (s_ostms st) /\ In li (os_members s) /\ member_val (a_objs a) s li = OInt z.
+  Proof.
+    intros Hc Hin. destruct (comp_In li Hc) as [s [Hs Hm]].
+    destruct (member_facts s li Hs Hm) as [[o [Ef _]] _].
+    pose proof (find_obj_unique (a_objs a) li lg (OInt z) nd_numsG Hin) as Ef'. rewrite Ef in Ef'. inversion Ef'; subst.
+    split; [reflexivity|]. exists s. split; [exact Hs|]. split; [exact Hm|].
+    unfold member_val.
+    destruct (member_val_denote (a_objs a) (os_members s) (os_items s) li) as [g' [o' [y' [A [_ C]]]]].
+    - intros m Hmm. destruct (os_build_find _ _ _ _ _ (cont_build s Hs) m Hmm) as [o' Eo']. eauto.
+    - exact Hm.
+    - rewrite C. rewrite Ef in A. inversion A; subst. reflexivity.
+  Qed.
+
+  Lemma deferred_okG : deferred_ok FG fullG M1 PG.
+  Proof.
+    intros [n g] start Hp. rewrite PG_lookup in Hp. destruct (hit EG XG (n, g)) eqn:Eh; [|discriminate Hp]. cbn [fst snd] in Hp.
+    destruct (hit_true n g Eh) as [off [_ Hent]].
+    destruct (pos_some_top n off g start Hent Hp) as [tp [Hpt [En Eg]]]. subst n g.
+    destruct (top_entry_cases tp Hpt) as [off' [_ [Eobj [_ [[K _]|[d [c [li [lg [start' [rest [Q1 [Q2 [Q3 [Q4 [Q5 [Q6 [Q7 Q8]]]]]]]]]]]]]]]]]];
+      [rewrite K in Hp; discriminate Hp|].
+    rewrite Q5 in Hp. inversion Hp; subst start'. clear Hp.
+    destruct (member_int li lg _ Q3 Q4) as [-> [s [Hs [Hm Hv]]]].
+    exists (denote_dict d (dict_sts (i_obj (snd tp)))), li, 0, c, rest.
+    split; [rewrite M1_lookup, M0_lookup, Eh; cbn [fst snd]; rewrite Eobj, Q8; reflexivity|].
+    split; [apply dict_get_denote_ref; exact Q2|].
+    split.
+    { rewrite M1_lookup, M0_lookup.
+      assert (Ehl : hit EG XG (li, 0) = false).
+      { unfold hit. cbn [fst snd]. destruct (entryG_member s li Hs Hm) as [i Ee]. unfold EG. rewrite Ee. cbn [entry_meaning]. apply andb_false_r. }
+      rewrite Ehl, (find_member_of s li Hs Hm), Hv. reflexivity. }
+    split; [exact Q6|]. split; [exact Q7|].
+    unfold fullG. cbn [fst]. assert (Hin : In tp gotops) by (apply otopG_in; unfold gtops; apply in_or_app; left; exact Hpt).
+    rewrite (find_top_in tp Hin). unfold loaded_top. rewrite Q1. reflexivity.
+  Qed.
+
+  Lemma ZS_nodup : NoDup ZS.
+  Proof. apply zero_of_nodup. exact x0G_keys_nodup. Qed.
+
+  Lemma ZS_streams id : In id ZS -> exists d c, lookup M1 id = Some (OStream d c).
+  Proof.
+    unfold ZS. intro H. apply in_flat_map in H as [[k e] [H1 H2]]. unfold zero_of in H2. cbn [fst snd] in H2.
+    destruct e as [| |off g|c i]; try contradiction. destruct (memfG k); [contradiction|].
+    destruct (objfG k g) as [| | | | | | | |d c|] eqn:Eo; try contradiction. destruct c; [|contradiction]. destruct H2 as [<-|[]].
+    exists d, []. rewrite M1_lookup, M0_lookup, (hit_entry _ _ _ H1). cbn [fst snd]. rewrite Eo. reflexivity.
+  Qed.
+
+  Lemma ZS_all id start : pos_get PG id = Some start -> In id ZS.
+  Proof.
+    destruct id as [n g]. intro Hp. rewrite PG_lookup in Hp. destruct (hit EG XG (n, g)) eqn:Eh; [|discriminate Hp]. cbn [fst snd] in Hp.
+    destruct (hit_true n g Eh) as [off [_ Hent]].
+    destruct (pos_some_top n off g start Hent Hp) as [tp [Hpt [En Eg]]]. subst n g.
+    destruct (top_entry_cases tp Hpt) as [off' [_ [Eobj [Em [[K _]|[d [c [li [lg [start' [rest [_ [_ [_ [_ [_ [_ [_ Q8]]]]]]]]]]]]]]]]]];
+      [rewrite K in Hp; discriminate Hp|].
+    unfold ZS. apply in_flat_map. exists (top_num tp, XNormal off (snd (fst (fst tp)))). split; [exact Hent|].
+    unfold zero_of. cbn [fst snd]. rewrite Em, Eobj, Q8. left. reflexivity.
+  Qed.
+
+  Lemma OBJS_lookup i : lookup OBJS i = match pos_get PG i with Some _ => Some (fullG i) | None => lookup M1 i end.
+  Proof. unfold OBJS. apply zero_pass_lookup; [exact deferred_okG|exact ZS_nodup|exact ZS_streams|exact ZS_all]. Qed.
+
+  (* ---------- what is loaded ---------- *)
+  Lemma loaded_plain tp : In tp ptops -> lookup OBJS (fst (fst tp)) = Some (loaded_top tp).
+  Proof.
+    intro Hp. destruct (top_entry_cases tp Hp) as [off [Hent [Eobj [_ Hc]]]].
+    replace (fst (fst tp)) with (top_num tp, snd (fst (fst tp))) by (destruct tp as [[[? ?] ?] ?]; reflexivity).
+    rewrite OBJS_lookup, PG_lookup, (hit_entry _ _ _ Hent). cbn [fst snd].
+    destruct Hc as [[K1 K2]|[d [c [li [lg [start [rest [Q1 [_ [_ [_ [Q5 _]]]]]]]]]]]].
+    - rewrite K1, M1_lookup, M0_lookup, (hit_entry _ _ _ Hent). cbn [fst snd]. rewrite Eobj, K2. reflexivity.
+    - rewrite Q5. unfold fullG. cbn [fst].
+      assert (Hin : In tp gotops) by (apply otopG_in; unfold gtops; apply in_or_app; left; exact Hp).
+      rewrite (find_top_in tp Hin). reflexivity.
+  Qed.
+
+  Lemma no_pos_other n g : (forall tp, In tp ptops -> top_num tp = n -> False) -> pos_get PG (n, g) = None.
+  Proof.
+    intro Hno. rewrite PG_lookup. destruct (hit EG XG (n, g)) eqn:Eh; [|reflexivity]. cbn [fst snd].
+    destruct (hit_true n g Eh) as [off [_ Hent]]. destruct (posfG n g) as [start|] eqn:Ep; [|reflexivity].
+    exfalso. destruct (pos_some_top n off g start Hent Ep) as [tp [Hpt [En _]]]. exact (Hno tp Hpt En).
+  Qed.
+
+  Lemma loaded_member s n : In s (s_ostms st) -> In n (os_members s) ->
+    lookup OBJS (n, 0) = Some (member_val (a_objs a) s n).
+  Proof.
+    intros Hs Hn. rewrite OBJS_lookup, no_pos_other.
+    - rewrite M1_lookup, M0_lookup.
+      assert (Ehl : hit EG XG (n, 0) = false).
+      { unfold hit. cbn [fst snd]. destruct (entryG_member s n Hs Hn) as [i Ee]. unfold EG. rewrite Ee. cbn [entry_meaning]. apply andb_false_r. }
+      rewrite Ehl. apply find_member_of; assumption.
+    - intros tp Hpt En. destruct (member_facts s n Hs Hn) as [_ [_ [Hnt _]]]. apply Hnt. rewrite <- En. apply in_map.
+      apply otopG_in. unfold gtops. apply in_or_app. left. exact Hpt.
+  Qed.
+
+  Lemma loaded_cont s : In s (s_ostms st) -> exists d', lookup OBJS (os_id s, 0) = Some (OStream d' (payload s (itemsof s))).
+  Proof.
+    intro Hs. destruct (cont_entry s Hs) as [off He].
+    destruct (entry_specG _ _ _ He) as [_ K]. unfold memfG in K. rewrite (find_cont_in s Hs) in K.
+    destruct K as [d [c [d' [c' [_ [_ [_ [K4 K5]]]]]]]].
+    destruct (Forall2_In_l _ _ _ s conts_spec Hs) as [tp [Htp Hc]].
+    assert (Hin : In tp gotops) by (apply otopG_in; unfold gtops; apply in_or_app; right; exact Htp).
+    destruct (in_split _ _ Hin) as [pre [post Eo]].
+    destruct (parse_cont s tp pre post Eo Hs Hc) as [_ [_ [_ [d2 Q3]]]].
+    exists d2. rewrite OBJS_lookup, no_pos_other.
+    - rewrite M1_lookup, M0_lookup, (hit_entry _ _ _ He). cbn [fst snd]. unfold objfG.
+      replace (os_id s =? gxid) with false.
+      2:{ symmetry. apply N.eqb_neq. intro E. apply (proj2 gxid_fresh). rewrite <- E. unfold cids. apply in_map. exact Hs. }
+      rewrite (find_cont_in s Hs). unfold cont_loaded. rewrite Q3. reflexivity.
+    - intros tp' Hpt En. apply (ptop_not_cid tp' Hpt). rewrite En. unfold cids. apply in_map. exact Hs.
+  Qed.
+
+  Lemma loaded_xref : lookup OBJS (gxid, 0) = Some (stream_new ddG data).
+  Proof.
+    rewrite OBJS_lookup, no_pos_other.
+    - assert (He : In (gxid, XNormal gxpos 0) XG).
+      { apply xget_In. unfold XG. rewrite (xgetG _ gxid_key). unfold EG. rewrite entryG_xid. reflexivity. }
+      rewrite M1_lookup, M0_lookup, (hit_entry _ _ _ He). cbn [fst snd]. unfold objfG. rewrite N.eqb_refl. reflexivity.
+    - intros tp Hpt En. apply (proj1 gxid_fresh). apply (plain_sub gxid). rewrite <- ptops_nums, <- En. apply in_map. exact Hpt.
+  Qed.
+
+  Lemma loaded_only id o : lookup OBJS id = Some o ->
+    (exists tp, In tp ptops /\ fst (fst tp) = id) \/
+    (exists s n, In s (s_ostms st) /\ In n (os_members s) /\ id = (n, 0)) \/
+    (exists s, In s (s_ostms st) /\ id = (os_id s, 0)) \/ id = (gxid, 0).
+  Proof.
+    destruct id as [n g]. intro H. rewrite OBJS_lookup, PG_lookup in H.
+    destruct (hit EG XG (n, g)) eqn:Eh.
+    - destruct (hit_true n g Eh) as [off [Ee _]].
+      destruct (entryG_inuse _ _ _ Ee) as [[pre [tp [post [Eo [Ek _]]]]]|[-> [-> _]]]; [|right; right; right; reflexivity].
+      assert (Hin : In tp gotops) by (rewrite Eo; apply in_or_app; right; left; reflexivity).
+      destruct (gtop_kind tp (proj1 (otopG_in tp) Hin)) as [Hpt|[s [Hs [o' [_ E]]]]].
+      + left. exists tp. split; assumption.
+      + right. right. left. exists s. split; [exact Hs|]. rewrite <- Ek, E. reflexivity.
+    - rewrite M1_lookup, M0_lookup, Eh in H. apply find_member_is in H as [s [Hs [Eg [Hm _]]]]. cbn [fst snd] in *. subst g.
+      right. left. exists s, n. auto.
+  Qed.
+
+  (* ---------- the whole file ---------- *)
+  Variable tG : dict.
+  Hypothesis Hxr : xref_and_trailer_x decompress_ref can_ref FG gxpos = SOk (x0G, tG).
+  Hypothesis HtG : dict_get tG K_Prev = None /\ dict_has tG K_Encrypt = false.
+
+  Theorem loads_objstm :
+    exists d, load_ext decompress_ref can_ref (s_junk st ++ FG) = LOk d XTStream /\
+      d_version d = a_version a /\ d_trailer d = tG /\
+      (forall tp, In tp ptops -> lookup (d_objects d) (fst (fst tp)) = Some (loaded_top tp)) /\
+      (forall s n, In s (s_ostms st) -> In n (os_members s) -> lookup (d_objects d) (n, 0) = Some (member_val (a_objs a) s n)) /\
+      (forall s, In s (s_ostms st) -> exists d', lookup (d_objects d) (os_id s, 0) = Some (OStream d' (payload s (itemsof s)))) /\
+      lookup (d_objects d) (gxid, 0) = Some (stream_new ddG data) /\
+      (forall id o, lookup (d_objects d) id = Some o ->
+         (exists tp, In tp ptops /\ fst (fst tp) = id) \/
+         (exists s n, In s (s_ostms st) /\ In n (os_members s) /\ id = (n, 0)) \/
+         (exists s, In s (s_ostms st) /\ id = (os_id s, 0)) \/ id = (gxid, 0)).
+  Proof.
+    destruct frame_factsG as [F1 [F2 F3]]. destruct HtG as [Hp He].
+    assert (R : dict_swap_remove tG K_Prev = tG) by (unfold dict_swap_remove, dict_has; rewrite Hp; reflexivity).
+    eexists. split.
+    - apply (load_ext_frame_loop decompress_ref can_ref FG XG objfG posfG memfG (s_junk st) FG (a_version a) gxpos x0G tG x0G tG);
+        try assumption; try reflexivity.
+      + rewrite Hp, R. reflexivity.
+      + exact max_id_smallG.
+      + exact entry_specG.
+    - cbn [d_version d_trailer d_objects]. split; [reflexivity|]. split; [reflexivity|].
+      split; [exact loaded_plain|]. split; [intros s n Hs Hn; apply loaded_member; assumption|].
+      split; [exact loaded_cont|]. split; [exact loaded_xref|exact loaded_only].
+  Qed.
 End GenFile.
